@@ -103,7 +103,7 @@ impl Scenario for C07 {
             server: end(r),
             cap: *r.pick(&[0u32, 0, 600, 4096]),
             tasks,
-            fault: if faults { (*r.pick(&["write_error", "peer_close"])).to_string() } else { String::new() },
+            fault: if faults { (*r.pick(if node_kind { &["write_error", "peer_close"][..] } else { &["write_error", "peer_close", "peer_stalls"][..] })).to_string() } else { String::new() },
             fault_at: r.below(1500),
             salt: r.next_u64(),
         };
@@ -180,7 +180,15 @@ async fn collector(mut conn: ServerConn, sink: Arc<Mutex<Vec<u8>>>, p: Arc<Plan>
     }
     let mut buf = vec![0u8; 4096];
     let mut total = 0u64;
+    let mut stalled = false;
     loop {
+        if p.fault == "peer_stalls" && total >= p.fault_at && !stalled {
+            // the peer is slow: it stops draining its socket for longer than the client's I/O timeout
+            stalled = true;
+            w.stat("fault.peer_stalls_reading");
+            w.ev(format!("peer: stops reading for 30 s after {} bytes", total));
+            tokio::time::sleep(Duration::from_secs(30)).await;
+        }
         if p.fault == "peer_close" && total >= p.fault_at {
             w.stat("fault.peer_close");
             w.ev(format!("peer: close after {} bytes", total));
@@ -304,7 +312,8 @@ async fn scenario(w: &Arc<World>, p: &Plan) {
             w.stat("probe.c07.asymmetric_flag_offer");
         }
         install_epmd_only(w);
-        let cfg = ConnectionConfig::new(SUT_NAME, PEER_NAME, COOKIE).with_flags(DistributionFlags::new(flags)).with_timeout(Duration::from_secs(600));
+        let io_timeout = if p.fault == "peer_stalls" { 10 } else { 600 };
+        let cfg = ConnectionConfig::new(SUT_NAME, PEER_NAME, COOKIE).with_flags(DistributionFlags::new(flags)).with_timeout(Duration::from_secs(io_timeout));
         let mut conn = Connection::new(cfg);
         // operations before the handshake completes fail without writing
         let pre = conn.link(&to_pid(&local_pid_for(0)).unwrap(), &to_pid(&peer_pid_for(0, 0, 0)).unwrap()).await;
